@@ -22,7 +22,21 @@ Oracle (from the property statement):
   sym_abstract, is_abstract, is_deterministic + pg.is_* functions) equal the
   facts of the same node of `pg.from_json(pg.to_json(root))` (fresh objects,
   nothing memoised).  All facts are queried before every step so that stale
-  memoisation is observable.
+  memoisation is observable.  This holds whether or not anybody listens: the
+  trees include roots of every kind (Object with/without handlers, Dict and
+  List with/without callback) and trees without a single listener.
+* "Per call" means per call, however the call names its changes: a mapping
+  plus keyword arguments (update / rebind), pairs plus keywords, a path dict
+  plus keywords, a generator: one event per receiver with all the locations; a
+  key named through both channels is one location (keyword wins, as for
+  dict.update).
+* What a receiver gets does not depend on its class relatives: a subclass of a
+  plain class overriding `_on_change`, an inherited override, a mixin override,
+  a functor subclass -- in every order in which the classes get their first
+  notification in the process (fresh classes per scenario).
+* A call is "inside a notifications-disabled scope" iff the innermost
+  `pg.notify_on_change` scope of the calling thread that is still open says
+  False -- however inner scopes were left (normally or by an exception).
 """
 import itertools
 import traceback
@@ -1336,13 +1350,118 @@ def drv_receiver_classes(tier, seed):
   return rec.result()
 
 
+# --------------------------------------------------------------------------
+# notify_on_change scopes: nesting x the way each scope is left.
+# --------------------------------------------------------------------------
+
+_SCOPE_PRE = '''a=P(a=1);cnt=iter(range(10,99));got=[]
+def ev():
+  del LOG[:];a.rebind(b=next(cnt))
+  got.append(sum(1 for e in LOG if e[0]=='c' and e[1] is a))
+'''
+
+
+def _scope_script(scopes, exits, level=0, enclosing=True):
+  """(lines, want): one mutating call at every point of the nesting.
+
+  scopes: values passed to pg.notify_on_change, outermost first; exits: per
+  scope 'normal' or 'exception' (a refused rebind, caught just outside the
+  scope).  want: 1 where the innermost enclosing scope says enabled (no scope:
+  enabled), else 0.
+  """
+  if level == len(scopes):
+    return [], []
+  v = scopes[level]
+  pad = '  ' * (2 * level)
+  inner, inner_want = _scope_script(scopes, exits, level + 1, v)
+  lines = [pad + 'try:', pad + f'  with pg.notify_on_change({v}):',
+           pad + '    ev()'] + inner
+  want = [int(v)] + inner_want
+  if exits[level] == 'exception':
+    lines.append(pad + "    a.rebind(a='refused')")
+  else:
+    lines.append(pad + '    ev()')
+    want.append(int(v))
+  lines += [pad + 'except TypeError:pass', pad + 'ev()']
+  want.append(int(enclosing))
+  return lines, want
+
+
+def _scope_cases(rec):
+  for depth in (1, 2, 3):
+    for scopes in itertools.product((True, False), repeat=depth):
+      for exits in itertools.product(('normal', 'exception'), repeat=depth):
+        lines, want = _scope_script(scopes, exits)
+        src = _SCOPE_PRE + '\n'.join(lines) + '\n'
+        ns = dict(_NS, pg=pg)
+        try:
+          exec(src, ns)  # pylint: disable=exec-used
+          got = ns['got']
+        except Exception as e:  # pylint: disable=broad-except
+          got = f'{type(e).__name__}: {e}'
+        del LOG[:]
+        how = ('all-left-normally' if 'exception' not in exits else
+               'left-by-exception')
+        nest = 'single-scope' if depth == 1 else 'nested-scopes'
+        rec.case(f'notify_on_change/{nest}-{how}|events', (scopes, exits),
+                 got == want,
+                 f'scopes {scopes} left {exits}: events per call {got}, want '
+                 f'{want} (1 = delivered; every call made where the innermost '
+                 f'enclosing scope enables notifications must deliver, the '
+                 f'others must not)',
+                 preamble('P(') + src + f'assert got=={want!r},got')
+  # A scope only covers the thread that entered it.
+  import threading  # pylint: disable=g-import-not-at-top
+  for v in (True, False):
+    res = {}
+
+    def work():
+      o = P(a=1)
+      with pg.notify_on_change(v):
+        ready.set()
+        go.wait(5)
+        o.rebind(b=5)
+      res['n'] = sum(1 for e in LOG if e[0] == 'c' and e[1] is o)
+    ready, go = threading.Event(), threading.Event()
+    del LOG[:]
+    th = threading.Thread(target=work)
+    th.start()
+    ready.wait(5)
+    mine = P(a=1)
+    with pg.notify_on_change(not v):
+      mine.rebind(b=6)
+      go.set()
+      th.join(10)
+    n_mine = sum(1 for e in LOG if e[0] == 'c' and e[1] is mine)
+    del LOG[:]
+    rec.case('notify_on_change/scope-in-other-thread|events', v,
+             res.get('n') == int(v) and n_mine == int(not v),
+             f'thread inside notify_on_change({v}) got {res.get("n")} events '
+             f'(want {int(v)}); main thread inside notify_on_change({not v}) '
+             f'at the same time got {n_mine} (want {int(not v)})',
+             preamble('P(') + f'''import threading
+r={{}};ready,go=threading.Event(),threading.Event()
+def work():
+  o=P(a=1)
+  with pg.notify_on_change({v}):
+    ready.set();go.wait(5);o.rebind(b=5)
+  r['n']=sum(1 for e in LOG if e[0]=='c' and e[1] is o)
+th=threading.Thread(target=work);th.start();ready.wait(5);m=P(a=1)
+with pg.notify_on_change({not v}):
+  m.rebind(b=6);go.set();th.join(10)
+assert (r['n'],sum(1 for e in LOG if e[0]=='c' and e[1] is m))==({int(v)},{int(not v)})''')
+
+
 def drv_misc(tier, seed):
   del tier, seed
   rec = Recorder(
       'C09', 'documented examples and library helpers that mutate symbolic '
-      'values: notify_on_change nesting, DNA.set_metadata freshness',
-      scope='flags.py docstring example of notify_on_change; pg.DNA '
-      'set_metadata on 3 DNA shapes; thread-locality of notify_on_change')
+      'values: notify_on_change nesting and exits, DNA.set_metadata freshness',
+      scope='flags.py docstring example of notify_on_change; all nestings of '
+      'notify_on_change(True/False) of depth<=3 x every scope left normally or '
+      'by a refused rebind caught outside it, one mutating call at every '
+      'point of the nesting; a scope held by another thread; pg.DNA '
+      'set_metadata on 3 DNA shapes')
   # notify_on_change docstring example.
   a, b = P(a=1), P(a=1)
   del LOG[:]
@@ -1361,6 +1480,7 @@ def drv_misc(tier, seed):
            '  with pg.notify_on_change(True):\n    a.rebind(b=1)\n'
            '  b.rebind(b=2)\n'
            "assert [e[1] is a for e in LOG if e[0] == 'c'] == [True], LOG")
+  _scope_cases(rec)
   # DNA.set_metadata is an ordinary public mutator.
   for name, src in [('leaf', 'pg.DNA(1)'), ('nested', 'pg.DNA([0, (1, 2)])'),
                     ('float', 'pg.DNA(0.5)')]:
